@@ -223,7 +223,14 @@ func (h *handler) serve(clientCtx context.Context) error {
 			for {
 				select {
 				case args := <-h.unaryRpcChan:
-					h.writeChan <- h.processUnaryRpc(clientCtx, args.info, args.md, args.rpc)
+					reply := h.processUnaryRpc(clientCtx, args.info, args.md, args.rpc)
+					select {
+					case h.writeChan <- reply:
+					case <-unaryRpcCtx.Done():
+						// The connection is gone and so is the writer: nobody
+						// will ever take this reply.
+						return
+					}
 				case <-unaryRpcCtx.Done():
 					return
 				}
